@@ -78,4 +78,16 @@ theorem batched_member_counted_once :
     relMT false (.endsWith ['b']) ['a', 'c'] = false := by
   decide
 
+/-- The array variant of the same finding: over an array-valued field the lone automaton of
+    `all(f): ['*ab*', '*cd*']` needs ONE element containing both needles, while each member on its
+    own matches some element (so the members written out as `A and B` are true). -/
+theorem batched_all_is_per_element :
+    let E0 : RegexEngine := ⟨fun _ _ => false, fun _ _ _ => false⟩
+    let e : Expr := .match .all (.search (.ac [.contains ['a', 'b'], .contains ['c', 'd']] false) ['f'] false)
+    let m1 : Expr := .search (.contains ['a', 'b']) ['f'] false
+    let m2 : Expr := .search (.contains ['c', 'd']) ['f'] false
+    let d : Doc := .obj [(['f'], .arr [.str ['a', 'b'], .str ['c', 'd']])]
+    solveClosed E0 d e = .f ∧ solveClosed E0 d m1 = .t ∧ solveClosed E0 d m2 = .t := by
+  decide
+
 end Tau.C08
